@@ -449,7 +449,11 @@ func (t *tracer) CaptureState(env *vm.EVM, pc uint64, op vm.OpCode, gas, cost ui
 			t.violate("static-write", fmt.Sprintf("state-modifying-op-executed-in-static-context:%s", op), fmt.Sprintf("depth=%d pc=%d", depth, pc))
 		}
 	}
-	t.cs = (t.cs*1000003 + gas%csMod + 3*(cost%csMod) + 5*uint64(ml) + 7*uint64(depth) + 11*uint64(len(stack.Data())) + 13*uint64(op)) % csMod
+	roBit := uint64(0)
+	if vm.VerifC07ReadOnly(env) {
+		roBit = 1 // interpreter.readOnly as the real EVM has it at this step: replayed by the model (Event.ro) through every nesting
+	}
+	t.cs = (t.cs*1000003 + gas%csMod + 3*(cost%csMod) + 5*uint64(ml) + 7*uint64(depth) + 11*uint64(len(stack.Data())) + 13*uint64(op) + 17*roBit) % csMod
 	rec.flags = t.oracleFlags(op, stack, memory, contract, false)
 	if len(t.steps) < stepCap+1 {
 		t.steps = append(t.steps, rec)
